@@ -69,6 +69,7 @@ package types
 //@   ensures len(r) == key[1] && len(s) == key[2+key[1]]
 //@   ensures forall i int :: {r[i]} 0 <= i && i < len(r) ==> r[i] == key[2+i]
 //@   ensures forall i int :: {s[i]} 0 <= i && i < len(s) ==> s[i] == key[3+key[1]+i]
+//@   abstracts isStreamKey(str_key(key)) ==> str_key(key) == kStream(bytesval(r), bytesval(s))
 
 //@ func FirstAddressFromStreamStoreKey(key) (a)
 //@   props C18 C20
@@ -184,7 +185,29 @@ package types
 //@   (forall ((r BytesV) (sd BytesV)) (! (=> (strHas s r sd) (and (not (= r esc)) (not (= sd esc)))) :pattern ((select s (kStream r sd))))))
 //@ (define-fun addrB ((s Str)) BytesV (bytesval (addrOf s)))
 //@ (define-fun isStreamKey ((k stream.Key)) Bool ((_ is kStream) k))
+//@ (define-fun streamKeyR ((k stream.Key)) BytesV (kStream.r k))
+//@ (define-fun streamKeyS ((k stream.Key)) BytesV (kStream.s k))
+//@ ; iteration over the stream section (genesis export): all streams share the prefix 0x11; they are visited in the order
+//@ ; of their key bytes, abstracted as a strict total order on (receiver, sender) pairs
+//@ (declare-datatypes ((stream.Prefix 0)) (((pStreamAll) (pOtherSP (pOtherSP.n Int)))))
+//@ (declare-fun str_prefix ((Slice Int)) stream.Prefix)
+//@ (define-fun str_inprefix ((p stream.Prefix) (k stream.Key)) Bool (and ((_ is pStreamAll) p) ((_ is kStream) k)))
+//@ (declare-fun pairLt (BytesV BytesV BytesV BytesV) Bool)
+//@ (assert (forall ((a BytesV) (b BytesV)) (! (not (pairLt a b a b)) :pattern ((pairLt a b a b)))))
+//@ (assert (forall ((a BytesV) (b BytesV) (c BytesV) (d BytesV) (e BytesV) (f BytesV)) (! (=> (and (pairLt a b c d) (pairLt c d e f)) (pairLt a b e f)) :pattern ((pairLt a b c d) (pairLt c d e f)))))
+//@ (assert (forall ((a BytesV) (b BytesV) (c BytesV) (d BytesV)) (! (or (pairLt a b c d) (pairLt c d a b) (and (= a c) (= b d))) :pattern ((pairLt a b c d)))))
+//@ (define-fun str_keylt ((x stream.Key) (y stream.Key)) Bool
+//@   (ite (and ((_ is kStream) x) ((_ is kStream) y)) (pairLt (kStream.r x) (kStream.s x) (kStream.r y) (kStream.s y)) false))
+//@ ; key bytes that stand for a stream key are an encoding produced by GetStreamKey (the only builder of such keys; the
+//@ ; abstraction str_key is injective on them by lemma stream_key_injective): prefix, length byte, receiver, length byte, sender
+//@ (assert (forall ((b (Slice Int))) (! (=> (isStreamKey (str_key b))
+//@    (and (>= (sl.len b) 5) (<= 1 (select (sl.arr b) 1)) (<= (select (sl.arr b) 1) 255)
+//@         (<= 1 (select (sl.arr b) (+ 2 (select (sl.arr b) 1)))) (<= (select (sl.arr b) (+ 2 (select (sl.arr b) 1))) 255)
+//@         (= (sl.len b) (+ 3 (select (sl.arr b) 1) (select (sl.arr b) (+ 2 (select (sl.arr b) 1)))))))
+//@    :pattern ((str_key b)))))
 //@ end
+
+//@ global StreamKeyPrefix abstracts str_prefix(StreamKeyPrefix) == pStreamAll
 
 //@ global ParamsKey abstracts str_key(ParamsKey) == kSParams
 
